@@ -32,8 +32,34 @@ def B(n):
     return ("basic", n)
 
 
+def canon_alias(t):
+    """type arguments are spelled with byte / rune only: llgo does not link a program that instantiates one
+    generic type under both spellings of the same argument (finding generic-instance-byte-uint8-spelling-link-failure,
+    probed by its own small program harness/e2e_alias)"""
+    k = t[0]
+    if k == "basic":
+        return ("basic", {"uint8": "byte", "int32": "rune"}.get(t[1], t[1]))
+    if k == "named":
+        return ("named", t[1], t[2], [canon_alias(a) for a in t[3]])
+    if k in ("ptr", "slice"):
+        return (k, canon_alias(t[1]))
+    if k == "array":
+        return (k, t[1], canon_alias(t[2]))
+    if k == "map":
+        return (k, canon_alias(t[1]), canon_alias(t[2]))
+    if k == "chan":
+        return (k, t[1], canon_alias(t[2]))
+    if k == "func":
+        return (k, [canon_alias(a) for a in t[1]], [canon_alias(a) for a in t[2]], t[3])
+    if k == "struct":
+        return (k, [(n, e, tg, canon_alias(ft)) for n, e, tg, ft in t[1]])
+    if k == "iface":
+        return (k, [(n, [canon_alias(a) for a in ps], [canon_alias(a) for a in rs], v) for n, ps, rs, v in t[1]])
+    return t
+
+
 def N(pkg, name, *targs):
-    return ("named", pkg, name, list(targs))
+    return ("named", pkg, name, [canon_alias(a) for a in targs])
 
 
 ERR = ("named", None, "error", [])
@@ -605,6 +631,20 @@ def nil_stringer_risk(t, seen=()):
     return False
 
 
+def zero_size(t, seen=()):
+    k = t[0]
+    if k == "named":
+        key = (t[1], t[2], repr(t[3]))
+        if t[1] is None or key in seen:
+            return False
+        return zero_size(underlying(t), seen + (key,))
+    if k == "array":
+        return t[1] == 0 or zero_size(t[2], seen)
+    if k == "struct":
+        return all(zero_size(f[3], seen) for f in t[1])
+    return False
+
+
 def value_features(t):
     """features of the expanded type (through declarations) that explain differences of value-level probes"""
     fs = set()
@@ -641,6 +681,8 @@ def value_features(t):
             for a in t[1] + t[2]:
                 go(a)
         elif k == "struct":
+            if t[1] and zero_size(t[1][-1][3]) and not zero_size(t):
+                fs.add("trailing-zero-size")
             for n, emb, tag, ft in t[1]:
                 if exported(n) and ord(n[0]) >= 0x80:
                     fs.add("nonascii-field")
